@@ -1,5 +1,7 @@
 import Pathrs.Proofs.Props.C13
 import Pathrs.Proofs.Rely
+import Pathrs.Proofs.KProbe
+import Pathrs.Proofs.RunsWorld
 
 /-!
 # C12 — `mkdir_all` creates exactly the missing directories and converges under races
@@ -27,6 +29,13 @@ import Pathrs.Proofs.Rely
   own steps included — only added directories (the guarantee, so N callers compose).  The
   precondition is that whatever already exists of the chain consists of directories (`Pre`),
   which is what the partial lookup establishes.
+
+* `C12_target_is_spec` (refinement against the kernel specification, `Proofs/KSimStack.lean`,
+  `Proofs/KProbe.lean`): on an unmodified well-formed tree the partial lookup of `mkdir_all` — on
+  either backend — hands the creating loop the object after the *longest resolvable prefix* of the
+  path (`pfx … j = ok handle`, `pfx … (j+1) = ENOENT`) and exactly the remaining components that are
+  not `""`/`"."` (`remainingParts rem = (comps.drop j).filter nd`); or, when the whole path resolves,
+  that object and nothing to create.
 
 The frame condition on the real filesystem, the requested mode and the agreement of racing
 callers through the partial lookup are decided by the effect oracle and the racing-threads
@@ -190,3 +199,63 @@ example : Steps 0o755 5 [b!"a"] []
   refine ⟨by decide, .unit, [(Call.mkdirat 5 b!"a" 0o755, Resp.unit)], 6, .unit, ?_, Or.inl rfl, ?_⟩
   · exact List.prefix_refl _
   · exact ⟨rfl, rfl⟩
+
+/-! ### the starting point of the creating loop, on a world -/
+
+open KRun KSim KSpec World KPartial KPartialRun KProbe SStack in
+theorem C12_target_is_spec {w : World} (hw : w.WF) (r : Resolver) (path : Bytes) (hp : path ≠ [])
+    (hnul : path.contains 0 = false) {h hm : Hist} {handle : Fd} {rem : Option Bytes}
+    (hres : Runs (Root.partialTarget (kenv w) { fd := w.root, resolver := r } path) h hm (.ok (handle, rem)))
+    (l : Hist) (hl : hm = h ++ l) (ha : AnswersFrom w l) :
+    (rem = none ∧ kresolve w (if r.emulated then ecfg r.rflags false else kcfgK w r.rflags false) w.root
+        (Path.rawComponents path) 0 = .ok handle) ∨
+    (∃ j, pfx w (if r.emulated then ecfg r.rflags false else kcfgK w r.rflags false) (Path.rawComponents path) j = .ok handle ∧
+      pfx w (if r.emulated then ecfg r.rflags false else kcfgK w r.rflags false) (Path.rawComponents path) (j + 1) = .error ENOENT ∧
+      Root.remainingParts rem = ((Path.rawComponents path).drop j).filter nd) := by
+  have hd := Runs.world_det (w := w) hres l hl ha
+  have hsl : ∀ x ∈ Path.rawComponents path, Path.containsSlash x = false := rawComponents_single path
+  unfold Root.partialTarget Resolver.resolvePartial at hd
+  by_cases hemu : r.emulated = true
+  · obtain ⟨le, e1, e2, e3⟩ := run_opath_resolvePartial hw path hp r.rflags
+    simp only [hemu, ↓reduceIte, M.bind_def, run_bind'_simp, e1] at hd ⊢
+    cases le with
+    | complete he =>
+      simp only [run_do_pure, Except.ok.injEq, Prod.mk.injEq] at hd
+      left
+      refine ⟨hd.2, ?_⟩
+      cases hk : kresolve w (ecfg r.rflags false) w.root (Path.rawComponents path) 0 with
+      | ok c => rw [hk] at e2; simp [lookupOut, toOut] at e2; rw [hd.1, e2]
+      | error e => rw [hk] at e2; simp [lookupOut, toOut] at e2
+    | part he re ee =>
+      by_cases hen : ee = .os ENOENT
+      · subst hen
+        simp only [↓reduceIte, run_do_pure, Except.ok.injEq, Prod.mk.injEq] at hd
+        obtain ⟨je, ⟨_, ⟨x, s1⟩, s2⟩, s3⟩ := e3 he re rfl
+        right
+        refine ⟨je, ?_, s2, ?_⟩
+        · unfold pfx; rw [kresolve_eq_kres2, s1, hd.1]; rfl
+        · rw [hd.2, s3, remainingParts_joinSlash _ (fun c hc => hsl c (List.mem_of_mem_drop hc))]
+      · simp only [hen, ↓reduceIte, run_bind'_simp, run_do_liftP, run_do_throw] at hd
+        cases hd
+  · have hemu' : r.emulated = false := by simpa using hemu
+    obtain ⟨lk, k1, k2, k3⟩ := run_openat2_resolvePartial hw path hp hnul r.rflags
+    simp only [hemu', Bool.false_eq_true, ↓reduceIte, M.bind_def, run_bind'_simp, k1] at hd ⊢
+    cases lk with
+    | complete hk0 =>
+      simp only [run_do_pure, Except.ok.injEq, Prod.mk.injEq] at hd
+      left
+      refine ⟨hd.2, ?_⟩
+      cases hk : kresolve w (kcfgK w r.rflags false) w.root (Path.rawComponents path) 0 with
+      | ok c => rw [hk] at k2; simp [lookupOut, toOut] at k2; rw [hd.1, k2]
+      | error e => rw [hk] at k2; simp [lookupOut, toOut] at k2
+    | part hk0 rk ek =>
+      by_cases hen : ek = .os ENOENT
+      · subst hen
+        simp only [↓reduceIte, run_do_pure, Except.ok.injEq, Prod.mk.injEq] at hd
+        obtain ⟨jk, e', t0, t1, t2, t3⟩ := k3 hk0 rk _ rfl
+        cases t0
+        right
+        exact ⟨jk, by rw [hd.1]; exact t1, t2, by rw [hd.2]; exact t3⟩
+      · simp only [hen, ↓reduceIte, run_bind'_simp, run_do_liftP, run_do_throw] at hd
+        cases hd
+
